@@ -24,6 +24,10 @@ func (fr *frame) argVals(st *State, c *ssa.CallCommon) []*Val {
 	var out []*Val
 	for _, a := range c.Args {
 		v := fr.val(st, a)
+		if v.Addr != nil && v.T == nil {
+			out = append(out, &Val{Addr: v.Addr, Go: a.Type()})
+			continue
+		}
 		t := fr.term(st, a)
 		out = append(out, &Val{T: t, Addr: v.Addr, Fn: v.Fn, Go: a.Type()})
 	}
@@ -359,8 +363,27 @@ func (vc *VC) contractEnv(con *Contract, args []*Term, results []*Term, cur, old
 func (fr *frame) applyContract(st *State, con *Contract, args []*Val, pos token.Pos, sig *types.Signature) *Val {
 	vc := fr.vc
 	ats := make([]*Term, len(args))
+	addrArgs := map[int]*Addr{}
 	for i, a := range args {
 		ats[i] = a.T
+		if a.T == nil {
+			if a.Addr != nil {
+				addrArgs[i] = a.Addr
+				vc.assumed["contract of "+shortName(con.Name)+" (proved for heap-object receivers) applied to an interior pointer &s[i]/&p.f"] = true
+			} else {
+				vc.note("argument without a term passed to " + shortName(con.Name))
+			}
+			ats[i] = vc.fresh("iptr", vc.sortOf(a.Go))
+		}
+	}
+	bindAddrs := func(env *SEnv) {
+		for i, ad := range addrArgs {
+			if i < len(con.ParamNames) && con.ParamNames[i] != "_" {
+				v := &SVal{Addr: ad, Go: con.ParamTypes[i]}
+				env.vars[con.ParamNames[i]] = v
+				env.oldVars[con.ParamNames[i]] = v
+			}
+		}
 	}
 	if con.Mode != vc.mode && con.Opts["anymode"] != "true" {
 		// contracts are re-translated in the caller's mode; nothing to do, but record it
@@ -369,11 +392,18 @@ func (fr *frame) applyContract(st *State, con *Contract, args []*Val, pos token.
 	// implicit: pointer receivers are non-nil
 	if sig != nil && sig.Recv() != nil && len(ats) > 0 {
 		if _, ok := sig.Recv().Type().Underlying().(*types.Pointer); ok {
-			vc.oblige("safety.nil", st, Not(Eq(ats[0], IntLit64(0))), pos, "method call on nil receiver: "+con.Name)
+			if ad, isAddr := addrArgs[0]; isAddr {
+				if ad.Nil != nil {
+					vc.oblige("safety.nil", st, Not(ad.Nil), pos, "method call on nil receiver: "+con.Name)
+				}
+			} else {
+				vc.oblige("safety.nil", st, Not(Eq(ats[0], IntLit64(0))), pos, "method call on nil receiver: "+con.Name)
+			}
 		}
 	}
 	pre := st.clone()
 	env := vc.contractEnv(con, ats, nil, pre, pre)
+	bindAddrs(env)
 	env.proving = true
 	for _, rq := range con.Requires {
 		t, err := env.trBool(rq.E)
@@ -405,6 +435,7 @@ func (fr *frame) applyContract(st *State, con *Contract, args []*Val, pos token.
 		rvs = append(rvs, &Val{T: v, Go: rt})
 	}
 	post := vc.contractEnv(con, ats, rts, st, pre)
+	bindAddrs(post)
 	for _, en := range con.Ensures {
 		t, err := post.trBool(en.E)
 		if err != nil {
@@ -556,11 +587,25 @@ func (fr *frame) inline(st *State, callee *ssa.Function, args []*Val, pos token.
 	*st = *merged
 	nres := callee.Signature.Results().Len()
 	mk := func(i int) *Val {
+		rt := callee.Signature.Results().At(i).Type()
+		anyAddr := false
+		for _, r := range sub.rets {
+			if r.results[i].Addr != nil && r.results[i].T == nil {
+				anyAddr = true
+			}
+		}
+		if anyAddr {
+			if v := vc.mergeAddrResults(states, sub.rets, i, rt); v != nil {
+				return v
+			}
+			vc.note("interior pointers of different shapes returned by " + shortFuncName(callee))
+			return &Val{T: vc.fresh("iptr", SInt), Go: rt}
+		}
 		ts := make([]*Term, len(sub.rets))
 		for j, r := range sub.rets {
 			ts[j] = r.results[i].T
 		}
-		return &Val{T: vc.mergeTerms("ret", states, ts), Go: callee.Signature.Results().At(i).Type()}
+		return &Val{T: vc.mergeTerms("ret", states, ts), Go: rt}
 	}
 	switch nres {
 	case 0:
@@ -786,4 +831,61 @@ func (vc *VC) bitsStub(name string, x *Term) *Term {
 		return r
 	}
 	return vc.fresh("bits", SBV(iw))
+}
+
+// mergeAddrResults merges interior-pointer results (&s[i], &p.f) of several returns of an inlined callee;
+// a nil result contributes to the Nil condition of the merged address.
+func (vc *VC) mergeAddrResults(states []*State, rets []*retInfo, i int, rt types.Type) *Val {
+	var first *Addr
+	for _, r := range rets {
+		if a := r.results[i].Addr; a != nil && r.results[i].T == nil {
+			if first == nil {
+				first = a
+			} else if a.Kind != first.Kind || a.Key != first.Key || len(a.Path) != len(first.Path) || a.Alloc != first.Alloc {
+				return nil
+			}
+		}
+	}
+	if first == nil {
+		return nil
+	}
+	n := len(rets)
+	refs, idxs, nils := make([]*Term, n), make([]*Term, n), make([]*Term, n)
+	for j, r := range rets {
+		v := r.results[i]
+		if v.Addr != nil && v.T == nil {
+			refs[j], idxs[j] = v.Addr.Ref, v.Addr.Idx
+			nils[j] = TFalse
+			if v.Addr.Nil != nil {
+				nils[j] = v.Addr.Nil
+			}
+			for k, p := range v.Addr.Path {
+				if p.IsIdx != first.Path[k].IsIdx || (!p.IsIdx && p.Field != first.Path[k].Field) || p.IsIdx {
+					return nil
+				}
+			}
+		} else {
+			// must be the nil constant
+			if v.T == nil {
+				return nil
+			}
+			if lv, ok := intLitVal(v.T); !ok || lv.Sign() != 0 {
+				return nil
+			}
+			refs[j], idxs[j] = first.Ref, first.Idx
+			nils[j] = TTrue
+		}
+	}
+	na := *first
+	if first.Ref != nil {
+		na.Ref = vc.mergeTerms("aref", states, refs)
+	}
+	if first.Idx != nil {
+		na.Idx = vc.mergeTerms("aidx", states, idxs)
+	}
+	na.Nil = vc.mergeTerms("anil", states, nils)
+	if na.Nil.IsFalse() {
+		na.Nil = nil
+	}
+	return &Val{Addr: &na, Go: rt}
 }
